@@ -9,7 +9,9 @@ package httproto
 // (C06 is claimed with message printing off: the debug copy of a printed message
 // accumulates every header line and is deliberately outside the limit)
 //@ func (*httproto).Unpack
-//@   property C15 C06
+//@   property C15 C06 C02
+//@   requires[per-frame-ghosts-clear] @C02 !as(m, type(*socket.message)).#headDecoded
+//@   ensures[bound-once-head-decoded] @C02 as(m, type(*socket.message)).#headDecoded ==> as(m, type(*socket.message)).#bound
 //@   requires[not-debug-printing] @C06 !h.printMessage
 //@   requires msgOwnStatus(as(m, type(*socket.message)))
 
@@ -26,7 +28,8 @@ package httproto
 //@ func (*httproto).unpack
 //@   property C06
 //@   flags libframe
+//@   ghostset as(m, type(*socket.message)).#headDecoded = result.2 == nil
 //@   requires bb != nil && !h.printMessage
-//@   modifies bb.B, ghost.maxAlloc, as(m, type(*socket.message)).bodyCodec, fields(as(m, type(*socket.message)).meta), allelems(type(utils.argsKV)), as(m, type(*socket.message)).xferPipe.filters, allelems(type(xfer.XferFilter)), as(m, type(*socket.message)).seq, as(m, type(*socket.message)).mtype, ghost.appendFailed
+//@   modifies bb.B, ghost.maxAlloc, as(m, type(*socket.message)).bodyCodec, fields(as(m, type(*socket.message)).meta), allelems(type(utils.argsKV)), as(m, type(*socket.message)).xferPipe.filters, allelems(type(xfer.XferFilter)), as(m, type(*socket.message)).seq, as(m, type(*socket.message)).mtype, ghost.appendFailed, as(m, type(*socket.message)).#headDecoded
 //@   ensures[body-within-limit] ghost.maxAlloc <= old(ghost.maxAlloc) || ghost.maxAlloc <= socket.messageSizeLimit + 1
 //@   loop 0: invariant[within-limit] ghost.maxAlloc <= old(ghost.maxAlloc) || ghost.maxAlloc <= socket.messageSizeLimit + 1
